@@ -23,6 +23,13 @@ class InjectedFault(BaseException):
     """BaseException: no `except Exception` in the library can swallow it."""
 
 
+# The same fault wearing the classes that real interruptions have (Ctrl-C, exit requests, out of memory, I/O errors, time-outs), so that a
+# handler written for one of them (`except KeyboardInterrupt: save what we have`) runs.
+FAULT_KINDS = {"plain": InjectedFault}
+for _b in (KeyboardInterrupt, SystemExit, MemoryError, OSError, TimeoutError, RecursionError, GeneratorExit, ValueError, TypeError, KeyError):
+    FAULT_KINDS[_b.__name__] = type("Injected" + _b.__name__, (InjectedFault, _b), {})
+
+
 # ------------------------------------------------------------------------------------------ audit hook
 _AUDIT = {"active": False, "target": None, "touched": False, "installed": False, "events": []}
 _WRITE_FLAGS = os.O_WRONLY | os.O_RDWR | os.O_TRUNC | os.O_CREAT | os.O_APPEND
@@ -104,7 +111,8 @@ def classify_site(frame):
 
 
 class Tracer:
-    def __init__(self, fault_at=None, record=True):
+    def __init__(self, fault_at=None, record=True, kind="plain"):
+        self.kind = kind
         self.record = record
         self.n = 0
         self.fault_at = fault_at
@@ -122,7 +130,7 @@ class Tracer:
             elif self.n == self.fault_at:
                 self.fault_site = classify_site(frame)
                 self.fault_touched = _AUDIT["touched"]
-                raise InjectedFault(f"injected at line event {self.n}")
+                raise FAULT_KINDS[self.kind](f"injected at line event {self.n}")
         return self._local
 
     def glob(self, frame, event, arg):
@@ -224,6 +232,12 @@ def build_repodata(shape, r):
         listed = [concrete_name(a) for a in (shape["pk"] or []) + (shape["cd"] or [])]
         d["removed"] = ["x-1.0-0.tar.bz2"] + (r.sample(listed, r.randint(1, len(listed))) if listed and r.random() < 0.6 else [])
         d["x-extra"] = {"z": None, "packages": {"decoy-1.0-0.tar.bz2": {"name": "decoy"}}}
+        # further top-level members whose NAMES resemble the two artifact sections: they are not artifact sections
+        for nm in r.sample(["packages.whl", "packages.removed", "packages.previous", "packages_conda", "packages.conda.bak", "Packages", "packages ", "packages.",
+                            "packages/noarch", "conda.packages", "signatures.old"], r.choice([0, 1, 2, 3])):
+            d[nm] = r.choice([{"ghost-9.9-0.whl": {"name": "ghost", "version": "9.9"}},
+                              {n: {"other": "metadata of " + n} for n in listed[:2]} or {"ghost-1.0-0.tar.bz2": {"name": "ghost"}},
+                              ["x-1.0-0.tar.bz2"], None, "text", {}])
     items = list(d.items())
     r.shuffle(items)
     return dict(items), metas
@@ -316,7 +330,7 @@ def setup_case(case, workdir, seed):
     return (lambda: common.write_metadata_to_file(value, target)), target, ctx
 
 
-def run_case(case, workdir, seed, fault_at=None, record=True):
+def run_case(case, workdir, seed, fault_at=None, record=True, kind="plain"):
     """Execute one case (optionally with an injected fault); return the abstract event + baseline info."""
     install_audit()
     fn, target, ctx = setup_case(case, workdir, seed)
@@ -324,7 +338,7 @@ def run_case(case, workdir, seed, fault_at=None, record=True):
         before = f.read()
     if "prep" in ctx:
         ctx["prep"]()
-    tr = Tracer(fault_at, record)
+    tr = Tracer(fault_at, record, kind)
     _AUDIT.update(active=True, target=os.path.abspath(target), touched=False, events=[])
     exc = None
     old_stdout = sys.stdout
